@@ -9,8 +9,10 @@
    version check).  No proofs in this file.
 
    Abstractions (all visible in the types below):
-   * the dependency identifier (detect.py:47-79) is the name alone: every other
-     identifying keyword (static, modules, method, ...) keeps its default;
+   * the dependency identifier (detect.py:47-79) is the pair (name, static): every other
+     identifying keyword (modules, method, ...) keeps its default.  An identifier is
+     written as the name with one leading tag character (ident / base below), so that
+     the override table, the dependency cache and the holder's name list are keyed by it;
    * one machine (host); `required` is a boolean (feature options not modelled);
    * the system is a table  name -> version  (pkg-config files in a private
      PKG_CONFIG_LIBDIR); a dependency object is  NotFound | Found kind version;
@@ -27,14 +29,25 @@ Definition dep_found (d : dep) : bool := match d with Found _ _ => true | NotFou
 
 Inductive wrapmode := WMdefault | WMnofallback | WMnodownload | WMforcefallback | WMnopromote.
 
-Record opts := mkOpts { o_wrap_mode : wrapmode; o_fff : list str }.   (* wrap_mode, force_fallback_for *)
+Inductive dlib := DShared | DStatic | DBoth.            (* default_library *)
+
+Record opts := mkOpts {
+  o_wrap_mode : wrapmode; o_fff : list str;              (* wrap_mode, force_fallback_for *)
+  o_deflib : dlib;                                       (* -Ddefault_library *)
+  o_subdl : list (str * dlib) }.                         (* -D<subproject>:default_library *)
+
+(* identifiers: (name, static) *)
+Definition tag (s : option bool) : char :=
+  match s with None => 0 | Some true => 1 | Some false => 2 end.
+Definition ident (s : option bool) (n : str) : str := tag s :: n.
+Definition base (k : str) : str := match k with _ :: n => n | [] => [] end.
 
 (* a variable of a configured subproject: a dependency object or something else *)
 Inductive var := VDep (d : dep) | VOther.
 
 Record subdef := mkSub {
   sd_fails : bool;                       (* the build file ends in error() *)
-  sd_overrides : list (str * dep);       (* meson.override_dependency(name, dep), in order *)
+  sd_overrides : list (str * option bool * dep);   (* meson.override_dependency(name, dep, static: s), in order *)
   sd_vars : list (str * var) }.
 
 (* PackageDefinition.provided_deps of one wrap file / bare directory, after
@@ -47,8 +60,8 @@ Record world := mkWorld {
   w_subs : list (str * subdef) }.        (* subprojects whose directory resolves *)
 
 Record state := mkState {
-  s_over : list (str * (dep * bool));    (* build.dependency_overrides: name -> (dep, explicit) *)
-  s_cache : list (str * str);            (* coredata.deps: found system deps, name -> version *)
+  s_over : list (str * (dep * bool));    (* build.dependency_overrides: identifier -> (dep, explicit) *)
+  s_cache : list (str * str);            (* coredata.deps: found system deps, identifier -> version *)
   s_subs : list (str * bool) }.          (* interpreter.subprojects: name -> found() *)
 
 Definition st0 : state := mkState [] [] [].
@@ -57,7 +70,9 @@ Record kwargs := mkKw {
   k_required : bool;
   k_version : list str;
   k_allow : option bool;                 (* allow_fallback *)
-  k_fallback : option (list str) }.      (* fallback (after stringlistify) *)
+  k_fallback : option (list str);        (* fallback (after stringlistify) *)
+  k_static : option bool;                (* static *)
+  k_deflib : option dlib }.              (* default_options: ['default_library=...'] *)
 
 Inductive outcome := OFound (d : dep) | ONotFound | OErr.
 
@@ -129,12 +144,13 @@ Definition truthy (o : option str) : bool := match o with Some (_ :: _) => true 
 
 (* ------------------------------------------------------------------ the holder *)
 Record holder := mkHolder {
-  h_names : list str;
+  h_names : list str;                    (* the identifiers of the names (ident static name) *)
   h_allow : option bool;
   h_spname : option str;                 (* subproject_name *)
   h_spvar : option str;                  (* subproject_varname *)
   h_force : bool;                        (* forcefallback *)
-  h_nofb : bool }.                       (* nofallback *)
+  h_nofb : bool;                         (* nofallback *)
+  h_dl : dlib }.                         (* default_library the fallback subproject is configured with *)
 
 (* dependencyfallbacks.py:215-256 *)
 Definition get_cached_dep (h : holder) (st : state) (name : str) (wanted : list str) : option dep :=
@@ -168,7 +184,7 @@ Fixpoint first_cached (h : holder) (st : state) (names : list str) (wanted : lis
 Fixpoint first_varname (w : world) (subp : str) (names : list str) : option str :=
   match names with
   | [] => None
-  | n :: r => let v := get_varname w subp n in
+  | n :: r => let v := get_varname w subp (base n) in
               if truthy v then v else first_varname w subp r
   end.
 
@@ -202,31 +218,74 @@ Inductive res (A : Type) := Ok (a : A) | Err.
 Arguments Ok {A} a.
 Arguments Err {A}.
 
-(* mesonmain.py:397-413 : one _override_dependency_impl *)
-Definition add_override (over : list (str * (dep * bool))) (name : str) (d : dep) (explicit : bool)
+(* mesonmain.py:397-413 : one non-permissive _override_dependency_impl on an identifier *)
+Definition add_override (over : list (str * (dep * bool))) (key : str) (d : dep) (explicit : bool)
   : res (list (str * (dep * bool))) :=
-  match name with
-  | [] => Err                                               (* :357-358 *)
-  | _ => match assoc name over with
+  match key with
+  | [] => Err
+  | _ => match assoc key over with
          | Some _ => Err                                    (* :406-411 *)
-         | None => Ok (over ++ [(name, (d, explicit))])
+         | None => Ok (over ++ [(key, (d, explicit))])
          end
   end.
 
-Fixpoint add_overrides (over : list (str * (dep * bool))) (l : list (str * dep))
+(* mesonmain.py:355-395 : meson.override_dependency(name, dep, static: s) in a project whose
+   default_library is dl *)
+Definition override_dep (over : list (str * (dep * bool))) (name : str) (static : option bool)
+           (dl : dlib) (d : dep) : res (list (str * (dep * bool))) :=
+  match name with
+  | [] => Err                                               (* :357-358 *)
+  | _ =>
+    match static with
+    | None =>                                               (* :374-385 *)
+        match add_override over (ident None name) d true with
+        | Err => Err
+        | Ok o1 =>
+            match dl with
+            | DStatic => add_override o1 (ident (Some true) name) d true
+            | DShared => add_override o1 (ident (Some false) name) d true
+            | DBoth => match add_override o1 (ident (Some true) name) d true with
+                       | Err => Err
+                       | Ok o2 => add_override o2 (ident (Some false) name) d true
+                       end
+            end
+        end
+    | Some b =>                                             (* :386-395 *)
+        let o1 := match assoc (ident None name) over with   (* permissive *)
+                  | Some _ => over
+                  | None => over ++ [(ident None name, (d, true))]
+                  end in
+        add_override o1 (ident (Some b) name) d true
+    end
+  end.
+
+Fixpoint add_overrides (over : list (str * (dep * bool))) (dl : dlib) (l : list (str * option bool * dep))
   : res (list (str * (dep * bool))) :=
   match l with
   | [] => Ok over
-  | (n, d) :: r => match add_override over n d true with
-                   | Ok over' => add_overrides over' r
-                   | Err => Err
-                   end
+  | (n, s, d) :: r => match override_dep over n s dl d with
+                      | Ok over' => add_overrides over' dl r
+                      | Err => Err
+                      end
+  end.
+
+(* the default_library a subproject is configured with: forced by `static:` on the
+   dependency() call (interpreter.py:955-963, dependencyfallbacks.py:124-131), else
+   -D<sub>:default_library, else default_options of the call, else the global value *)
+Definition eff_dl (o : opts) (subp : str) (static : option bool) (callopt : option dlib) : dlib :=
+  match static with
+  | Some true => DStatic
+  | Some false => DShared
+  | None => match assoc subp (o_subdl o) with
+            | Some x => x
+            | None => match callopt with Some x => x | None => o_deflib o end
+            end
   end.
 
 (* interpreter.py:943-1037 with version=[] : returns the new state, or Err when an
    exception propagates.  A subproject that does not resolve or fails is recorded as
    not found unless required. *)
-Definition do_subproject (w : world) (st : state) (subp : str) (required : bool) : res state :=
+Definition do_subproject (w : world) (st : state) (subp : str) (required : bool) (dl : dlib) : res state :=
   match subp with
   | [] => Err                                               (* :965-966 *)
   | _ =>
@@ -237,7 +296,7 @@ Definition do_subproject (w : world) (st : state) (subp : str) (required : bool)
         match assoc subp (w_subs w) with
         | None => if required then Err else Ok disabled       (* :992-1005 *)
         | Some sd =>
-            match (if sd_fails sd then Err else add_overrides (s_over st) (sd_overrides sd)) with
+            match (if sd_fails sd then Err else add_overrides (s_over st) dl (sd_overrides sd)) with
             | Err => if required then Err else Ok disabled    (* :1029-1037 *)
             | Ok over' => Ok (mkState over' (s_cache st) (s_subs st ++ [(subp, true)]))   (* :1097-1106 *)
             end
@@ -262,7 +321,7 @@ Definition run_cand (w : world) (h : holder) (wanted : list str) (c : cand) (req
   | CExisting s =>                                                             (* :106-110 *)
       (Ok (if get_subproject st s then get_subproject_dep w h st s (h_spvar h) wanted else None), st)
   | CSystem n =>                                                               (* :93-104, detect.py:95-171 *)
-      match assoc n (w_sys w) with
+      match assoc (base n) (w_sys w) with
       | Some v => if sys_check wanted v
                   then (Ok (Some (Found KSystem v)),
                         mkState (s_over st) (assoc_put n v (s_cache st)) (s_subs st))
@@ -271,7 +330,7 @@ Definition run_cand (w : world) (h : holder) (wanted : list str) (c : cand) (req
       end
   | CSub s =>                                                                  (* :112-137 *)
       if negb (h_force h) && h_nofb h then (Ok None, st)                       (* :116-119 *)
-      else match do_subproject w st s req with
+      else match do_subproject w st s req (h_dl h) with
            | Err => (Err, st)
            | Ok st' => (Ok (get_subproject_dep w h st' s (h_spvar h) wanted), st')
            end
@@ -360,7 +419,8 @@ Definition lookup (w : world) (o : opts) (st : state) (names0 : list str) (kw : 
              | (force', None) => (force', sp, spvar)
              end
         else (force, sp, spvar) in
-      let h := mkHolder names allow sp spvar force nofb in
+      let dl := match sp with Some s => eff_dl o s (k_static kw) (k_deflib kw) | None => o_deflib o end in
+      let h := mkHolder (map (ident (k_static kw)) names) allow sp spvar force nofb dl in
       let cs := candidates h in
       if is_nil cs && required then (OErr, st)                                 (* :354-355 *)
       else try_cands w h (k_version kw) required cs st
@@ -368,8 +428,8 @@ Definition lookup (w : world) (o : opts) (st : state) (names0 : list str) (kw : 
 
 (* ------------------------------------------------------------------ build files *)
 Inductive op :=
-| OpOverride (n : str) (d : dep)            (* meson.override_dependency(n, d) in the main project *)
-| OpSubproject (s : str) (required : bool)  (* subproject(s, required: r) *)
+| OpOverride (n : str) (static : option bool) (d : dep)   (* meson.override_dependency(n, d, static: s) in the main project *)
+| OpSubproject (s : str) (required : bool) (dl : option dlib)   (* subproject(s, required: r, default_options: ...) *)
 | OpLookup (names : list str) (kw : kwargs).  (* d = dependency(names..., kwargs); message(d...) *)
 
 (* runs the build file; returns what each dependency() call printed, and whether
@@ -377,13 +437,13 @@ Inductive op :=
 Fixpoint run_ops (w : world) (o : opts) (st : state) (ops : list op) : list outcome * bool :=
   match ops with
   | [] => ([], true)
-  | OpOverride n d :: r =>
-      match add_override (s_over st) n d true with
+  | OpOverride n sk d :: r =>
+      match override_dep (s_over st) n sk (o_deflib o) d with
       | Ok over' => run_ops w o (mkState over' (s_cache st) (s_subs st)) r
       | Err => ([], false)
       end
-  | OpSubproject s req :: r =>
-      match do_subproject w st s req with
+  | OpSubproject s req dl :: r =>
+      match do_subproject w st s req (eff_dl o s None dl) with
       | Ok st' => run_ops w o st' r
       | Err => ([], false)
       end
